@@ -66,14 +66,31 @@ def dump_program(prog, env):
         if t is ast.PreemptBlock: return '(preempt %s)' % st(s.body)
         raise ValueError('cannot dump statement %r' % (s,))
 
+    def has_preempt(node, seen=None):
+        """does the *syntax* contain a preempt block (README: 'anywhere in it, even if unreachable')"""
+        import dataclasses
+        if isinstance(node, ast.PreemptBlock): return True
+        if isinstance(node, (tuple, list)): return any(has_preempt(x) for x in node)
+        if dataclasses.is_dataclass(node) and not isinstance(node, type):
+            return any(has_preempt(getattr(node, f.name)) for f in dataclasses.fields(node)
+                       if f.name not in ('span', 'start', 'end', 'op_span'))
+        return False
+
+    parsed = env.options.get('_parsed')
+    syntactic = {}
+    if parsed is not None:
+        for f in parsed.func_decls:
+            syntactic[(f.name.name, tuple(str(t) for t in f.param_types))] = has_preempt(f.body)
+
     gl = []
     for name, decl in env.vars.globals.items():
         gl.append('(g %s %s %d %s)' % (_hx('n', name), ty(decl.var.type), 1 if decl.var.const else 0, ex(decl.init)))
     fs = []
     for f in prog.func_decls:
         ps = ' '.join('(p %s %s)' % (_hx('n', p.var.name), ty(p.var.type)) for p in f.params)
+        pre = syntactic.get((f.name.name, tuple(str(t) for t in f.param_types)), f.body.preemptive)
         fs.append('(f %s %s %d (%s) %s)' % (_hx('n', f.name.name), ty(f.ret_type),
-                                           1 if f.body.preemptive else 0, ps, st(f.body)))
+                                           1 if pre else 0, ps, st(f.body)))
     return '(prog (%s) (%s))' % (' '.join(gl), ' '.join(fs))
 
 
